@@ -197,6 +197,23 @@ def run(tier: str, replay=None) -> int:
             if mismatches <= 3:
                 res.violation({"what": f"ValueType.__eq__: real {real_eq} vs model", "a": ta, "b": tb})
 
+    # ---- the consumers of the table: which common type the lowering really uses for a pair of operand types, with variables
+    # and with literals of every suffix on either side (the observation is the emitted tree = the conversions inserted; values
+    # are C02/C03's business)
+    import semprops
+    cps = semprops.common_type_programs()
+    if tier == "quick":
+        import random as _r
+        _r.Random(seed() * 31 + 4).shuffle(cps)
+        cps = cps[:240]
+    ties = semprops.tree_ties(cps) if not replay else []
+    rc_ = __import__("realcode"); rc_.close_pool()
+    tie_bad = [t for t in ties if t[1] == "ok" and t[2] is False]
+    for src, _, _, model, real in tie_bad[:3]:
+        mismatches += 1
+        res.violation({"what": "the conversions the lowering inserts for this pair of operand types are not those of the common-type table (real tree differs from the lowering model's tree)",
+                       "program": src, "model": (model or "")[:1500], "real": (real or "")[:1500],
+                       "reproduce": f"Compiler(ArchEnum.HEXAGON).compile_c_stmt({src!r})"})
     rows = 0
     if tier == "thorough" and not replay:
         wmax = 2048
@@ -235,7 +252,7 @@ def run(tier: str, replay=None) -> int:
             "exhaustive": True,
             "exhaustive_pairs": exhaustive_n,
             "rows_hashed": rows,
-            "mismatches": mismatches,
+            "mismatches": mismatches, "expression_level_programs": len(ties), "expression_level_accepted": len([t for t in ties if t[1] == "ok"]),
             "samples": samples,
         }
     )
